@@ -352,6 +352,13 @@ def runKio (op : String) (a : Json) : Except String Json := do
       if Kio.pkgTarget pkg path = pkg then return Json.mkObj [("err", Json.str "dir")]
       return Json.mkObj [("ok", Json.str ("/" ++ "/".intercalate (Kio.pkgTarget pkg path)))]
     else return Json.mkObj [("err", Json.str "path")]
+  | "emit" =>
+    let bodies := match (a.getObjValD "bodies").getArr? with
+      | .ok l => l.toList.map fun x => (x.getStr?.toOption.getD "").toList
+      | _ => []
+    let stream := Kio.emit bodies
+    return Json.mkObj [("ok", Json.mkObj [("stream", Json.str (String.ofList stream)),
+      ("docs", Json.num (Kio.docsOf (Kio.pieces stream)).length)])]
   | _ => throw s!"unknown kio op {op}"
 
 /-! ### fix -/
